@@ -202,6 +202,7 @@ type session struct {
 	nsess   int
 	other   *vconn // connection of the second peer's session, if any
 	peerID  uint32 // BGP identifier of the last OPEN the peer sent
+	localAS uint32 // the speaker's AS (65000; 4200000001 for the configuration ibgp4)
 	noAP    bool   // the OPEN being built leaves out the add-path capability
 	openClass string // name of the OPEN class being built
 	lostIn  string // state in which the current connection was lost without a NOTIFICATION ("" = it was not)
@@ -209,8 +210,12 @@ type session struct {
 
 func newSession(cfg sessCfg) *session {
 	s := &session{cfg: cfg, peerIP: net.IPv4(10, 0, 0, 201).To4(), peerAS: 65001}
+	s.localAS = 65000
+	if cfg.name == "ibgp4" {
+		s.localAS = 4200000001
+	}
 	if cfg.IBGP {
-		s.peerAS = 65000
+		s.peerAS = s.localAS
 	}
 	s.vrf = vrf.NewUntrackedVRF("main", 0)
 	s.vrf.CreateIPv4UnicastLocRIB("inet.0")
@@ -225,7 +230,7 @@ func newSession(cfg sessCfg) *session {
 	}
 	pa, _ := bnet.IPFromBytes(s.peerIP)
 	s.peerKey = pa.Dedup()
-	pc := server.PeerConfig{AdminEnabled: true, LocalAS: 65000, PeerAS: s.peerAS, LocalAddress: bnet.IPv4FromOctets(10, 0, 0, 200).Ptr(),
+	pc := server.PeerConfig{AdminEnabled: true, LocalAS: s.localAS, PeerAS: s.peerAS, LocalAddress: bnet.IPv4FromOctets(10, 0, 0, 200).Ptr(),
 		PeerAddress: s.peerKey, Passive: !cfg.Active, ReconnectInterval: 5 * time.Millisecond, VRF: s.vrf, RouterID: 100, HoldTime: time.Duration(cfg.Hold) * time.Second,
 		KeepAlive: time.Duration(cfg.Hold) * time.Second / 3, IPv4: af(), IPv6: af(), PeerRoleStrictMode: cfg.Strict}
 	if cfg.Role != "none" && cfg.Role != "" {
@@ -299,6 +304,9 @@ func (s *session) fsm() *server.VerifFSMInfo {
 
 func (s *session) openBytes(o sessOpen) []byte {
 	as := int(s.peerAS)
+	if s.peerAS > 65535 {
+		as = 23456 // the 2-octet field cannot hold it
+	}
 	as4 := s.peerAS
 	switch o.AS {
 	case "other":
@@ -476,6 +484,9 @@ func (s *session) updateBytes(name string, u sessUpd) []byte {
 	case "annAcomm":
 		body = wire.UpdateBody(nil, cat(attrs, wire.Attr(0xc0, 8, append(wire.U32(65000<<16|1), wire.U32(65000<<16|2)...), false),
 			wire.Attr(0xc0, 32, cat(wire.U32(65000), wire.U32(1), wire.U32(2)), false)), nlri)
+	case "mpNoReserved":
+		v := append([]byte{0, 2, 1, 16}, []byte{0x20, 0x01, 0x0d, 0xb8, 0, 0, 0, 0, 0, 0, 0, 0, 0, 0, 0, 0xc9}...)
+		body = wire.UpdateBody(nil, cat(wire.Attr(0x80, wire.AttrMPReach, v, false), s.validAttrs(true)), nil)
 	case "noAttrs":
 		body = wire.UpdateBody(nil, nil, nlri)
 	case "noNextHopMP": // IPv4 NLRI next to an MP_REACH_NLRI: the IPv6 next hop in there is not the NEXT_HOP of the IPv4 routes
@@ -612,8 +623,12 @@ func (s *session) observe() sessState {
 
 // openProblem compares the OPEN the speaker wrote with its configuration (C17: what it serialises decodes to the same content).
 func (s *session) openProblem(o *wire.Open) string {
-	if o.Version != 4 || o.AS != 65000 || o.HoldTime != s.cfg.Hold || o.ID != 100 {
-		return fmt.Sprintf("version %d AS %d hold time %d identifier %d, configured: 4 / 65000 / %d / 100", o.Version, o.AS, o.HoldTime, o.ID, s.cfg.Hold)
+	hdrAS := int(s.localAS)
+	if s.localAS > 65535 {
+		hdrAS = 23456 // AS_TRANS
+	}
+	if o.Version != 4 || o.AS != hdrAS || o.HoldTime != s.cfg.Hold || o.ID != 100 {
+		return fmt.Sprintf("version %d AS %d hold time %d identifier %d, configured: 4 / %d / %d / 100", o.Version, o.AS, o.HoldTime, o.ID, hdrAS, s.cfg.Hold)
 	}
 	role, as4 := -1, -1
 	for _, c := range o.Caps {
@@ -629,8 +644,8 @@ func (s *session) openProblem(o *wire.Open) string {
 			}
 		}
 	}
-	if as4 != 65000 {
-		return fmt.Sprintf("4-octet AS capability %d, configured AS 65000", as4)
+	if as4 != int(s.localAS) {
+		return fmt.Sprintf("4-octet AS capability %d, configured AS %d", as4, s.localAS)
 	}
 	want := -1
 	if !s.cfg.IBGP && s.cfg.Role != "none" && s.cfg.Role != "" {
@@ -790,7 +805,7 @@ func (s *session) diff(exp sessState, got sessState, subs []int, malformedEarly 
 		return "hold-time", "wrong", exp.Hold, got.Hold
 	}
 	// loop detection contribution: the local ASN counts as ours exactly while a session of the VRF is attached
-	if c := s.vrf.IsContributingASN(65000); c != exp.ASN {
+	if c := s.vrf.IsContributingASN(s.localAS); c != exp.ASN {
 		return "asn-contribution", "wrong", exp.ASN, c
 	}
 	if s.cfg.RRC == "default" || s.cfg.RRC == "explicit" {
